@@ -61,6 +61,8 @@ def split_ops(script, output):
     for op in script:
         if op == 'end':
             break
+        if j >= len(output):
+            break          # the output was cut (a call the harness declined, or the rest of a case after an ID left its field)
         if op == 'snapshot':
             snap = []
             while j < len(output) and (output[j].startswith('doc ') or output[j].startswith('el ')):
